@@ -208,7 +208,13 @@ def main(pid, tier="quick", seed=0, replay=None):
         if b.get("status") == "fault":
             lines.append("CHECKER-FAULT bounded=%s %s" % (b["name"], str(b.get("error"))[:400]))
             bump(3)
-        for w in b.get("failures", [])[:5]:
+        seen_keys = set()
+        for w in b.get("failures", []):
+            if w.get("key") in seen_keys:
+                continue  # one report per defect class (the full list stays in the bounded check's own output)
+            seen_keys.add(w.get("key"))
+            if len(seen_keys) > 60:
+                break
             kf = [k for k in known if k.get("property") == pid and k.get("bounded") == b["name"] and (
                 not k.get("witness_key") or k.get("witness_key") == w.get("key"))]
             if kf:
